@@ -85,14 +85,14 @@ def install(eng):
     TABLE = [e.replace("result", "sched_table") for e in sc.ensures if "result" in e and "sched_table ==" not in e]
     NORES = [e for e in sc.ensures if "result" not in e]
     eng.contract(
-        "gwf.scheduling:submit_workflow",
+        "gwf.scheduling:submit_workflow", shards=4,
         params={"endpoints": TS, "graph": G, "fs": Fs, "spec_hashes": H, "backend": B, "dry_run": T.BOOL},
         requires=list(sc.requires) + ["backend == the_backend", "dry_mode == dry_run"],
         defines=list(sc.defines), entry_assume=list(sc.entry_assume),
         modifies=list(sc.modifies), ensures=TABLE + NORES, raises=dict(sc.raises),
         uses=list(sc.uses), serves=["C05", "C02", "C09"])
     eng.contract(
-        "gwf.scheduling:get_status_map",
+        "gwf.scheduling:get_status_map", shards=4,
         params={"graph": G, "fs": Fs, "spec_hashes": H, "backend": B, "endpoints": T.Opt(TS)}, returns=CacheT,
         requires=[r for r in sc.requires if "endpoints" not in r] + [
             "backend == the_backend", "dry_mode", "endpoints is None",
@@ -168,7 +168,7 @@ def install(eng):
     PERSIST = ["StatePath(the_backend) in disk_valid",
                "dict_eq(disk_tracked[StatePath(the_backend)], the_backend._tracked_jobs)"]
     eng.contract(
-        "gwf.plugins.run:run", params={"ctx": Ctx, "targets": LP, "dry_run": T.BOOL},
+        "gwf.plugins.run:run", shards=4, params={"ctx": Ctx, "targets": LP, "dry_run": T.BOOL},
         defines=["dry_mode"] + list(sc.defines) + ["InT", "deps0", "Reach"],
         entry_assume=["dry_mode == dry_run", "dom(log_pos) == NoTargets", "log_n == 0"],
         modifies=ALLMODS,
@@ -308,7 +308,7 @@ def install(eng):
     SEL = ("(InT(t) and (len(targets) == 0 or any(Matches(t.name, p) for p in targets)) and "
            "(all or exists(lambda b: t in deps0(b), Target)))")
     eng.contract(
-        "gwf.plugins.clean:clean", params={"ctx": Ctx, "targets": LP, "all": T.BOOL, "force": T.BOOL},
+        "gwf.plugins.clean:clean", shards=4, params={"ctx": Ctx, "targets": LP, "all": T.BOOL, "force": T.BOOL},
         locals={"filters": T.ListV(vc.Filter), "matches": T.ListV(vc.Target)},
         defines=["InT", "deps0", "Reach"], modifies=CLEANMODS,
         ensures=[
